@@ -444,114 +444,6 @@ Proof. destruct p; reflexivity. Qed.
 Lemma rev_cons_inv {A} (l : list A) x r : rev l = x :: r -> l = rev r ++ [x].
 Proof. intros H. rewrite <- (rev_involutive l), H. reflexivity. Qed.
 
-(** the insertion proper preserves the invariant *)
-Lemma Inv_add_core cfg p t : Inv p -> agrees p t -> tx_wf t -> Inv (fst (add_core cfg p t)).
-Proof.
-  intros HI Hag Hwf. pose proof HI as (HB & (Hnd & Hok & Hcnt) & HL). unfold add_core.
-  destruct (BH_add p t HB) as (A1 & A2 & A3 & A4 & A5).
-  destruct (byhash_add p t) as (p1, addedH) eqn:Eadd. simpl in A1, A2, A3, A4, A5.
-  destruct (alookup (byHash p) (hash t)) as [t'|] eqn:Eh.
-  - (* already pooled: nothing changes *)
-    assert (t' = t) by (apply Hag; exact Eh). subst t'.
-    assert (Hl : listed p t) by (apply HL; exact Eh). destruct Hl as (sl & Hsl & Hin).
-    assert (Ep1 : p1 = p). { unfold byhash_add in Eadd. rewrite Eh in Eadd. inversion Eadd. reflexivity. }
-    subst p1. rewrite Hsl. unfold sl_add.
-    destruct (Hok _ _ Hsl) as (_ & Hsorted & _ & _).
-    pose proof (insert_sorted_spec (items sl) t Hsorted) as Hins.
-    destruct (insert_sorted (items sl) t) as [l'|].
-    + exfalso. destruct Hins as (_ & _ & Hno). apply (Hno t Hin). repeat split; reflexivity.
-    + cbn [fst]. rewrite (aset_same _ _ _ Hsl), set_senders_id. exact HI.
-  - (* a new hash *)
-    assert (Hlook1 : forall h, alookup (byHash p1) h = if beqb (hash t) h then Some t else alookup (byHash p) h) by exact A4.
-    set (a := sender t) in *.
-    (* the pool right after the sorted insert, before the size constraints *)
-    assert (Hins_ok : forall sl, alookup (senders p) a = Some sl -> exists l', insert_sorted (items sl) t = Some l').
-    { intros sl Hsl. destruct (Hok _ _ Hsl) as (_ & Hsorted & _ & _).
-      pose proof (insert_sorted_spec (items sl) t Hsorted) as Hins.
-      destruct (insert_sorted (items sl) t) as [l'|]; [eauto|]. exfalso.
-      destruct Hins as (c & Hc & _ & _ & Ehc).
-      assert (Hlc : listed p c). { exists sl. destruct (Hok _ _ Hsl) as (_ & _ & Hsnd & _). rewrite (proj1 (Hsnd c Hc)). auto. }
-      apply HL in Hlc. rewrite Ehc in Hlc. congruence. }
-    cbv beta iota.
-    match goal with |- Inv ?X =>
-    assert (Hmid : exists pm l' sl1,
-       Inv pm /\ alookup (senders pm) a = Some sl1 /\ items sl1 = l' /\ totalBytes sl1 = sum_sizes l' /\
-       byHash pm = byHash p1 /\ cntTx pm = cntTx p1 /\ numBytes pm = numBytes p1 /\
-       X =
-       (let '(sl2, ev) := apply_size_constraints cfg sl1 in
-        let p3 := set_senders pm (aset (senders pm) a sl2) (cntSenders pm) in
-        let p4 := match ev with [] => p3 | _ => remove_sender_if_empty p3 a end in
-        match ev with [] => p4 | _ => byhash_remove_bulk p4 ev end)) end.
-    { rewrite A2. destruct (alookup (senders p) a) as [sl|] eqn:Esl.
-      - destruct (Hins_ok sl eq_refl) as (l' & El'). unfold sl_add. rewrite El'.
-        destruct (Hok _ _ Esl) as (Hne & Hsorted & Hsnd & Htb).
-        pose proof (insert_sorted_spec (items sl) t Hsorted) as Hins. rewrite El' in Hins. destruct Hins as (Hs' & Hp' & _).
-        set (sl1 := {| items := l'; totalBytes := totalBytes sl + size t |}).
-        set (pm := set_senders p1 (aset (senders p) a sl1) (cntSenders p1)).
-        exists pm, l', sl1.
-        assert (Htb1 : totalBytes sl1 = sum_sizes l').
-        { unfold sl1; simpl. rewrite (sum_sizes_perm _ _ Hp'), Htb. simpl. lia. }
-        split; [|split; [unfold pm; simpl; rewrite alookup_aset, beqb_refl; reflexivity|split; [reflexivity|split; [exact Htb1|]]]].
-        + apply (Inv_grow p t l'); [exact HI|exact Eh|exact Hwf| |exact Hs'| | | | |exact Hlook1].
-          * unfold old_items. fold a. rewrite Esl. exact Hp'.
-          * eapply BH_congr; [| | |exact A1]; reflexivity.
-          * unfold pm; simpl. rewrite (aset_keys_present _ _ _ _ Esl). exact Hnd.
-          * unfold pm; simpl. rewrite A3, Hcnt, (aset_length_present _ _ _ _ Esl). reflexivity.
-          * intros b. unfold pm; simpl. rewrite alookup_aset. fold a. destruct (beqb a b); [|reflexivity].
-            unfold sl1. rewrite <- Htb1. reflexivity.
-        + split; [reflexivity|]. split; [reflexivity|]. split; [reflexivity|].
-          destruct (apply_size_constraints cfg sl1) as (sl2, ev) eqn:Easc. cbn [fst].
-          unfold pm, set_senders. cbn [senders cntSenders byHash cntTx numBytes]. rewrite ?A2, aset_aset.
-          destruct ev; reflexivity.
-      - (* first transaction of this sender *)
-        unfold sl_add. simpl insert_sorted.
-        set (sl1 := {| items := [t]; totalBytes := 0 + size t |}).
-        set (pm := set_senders p1 (senders p ++ [(a, sl1)]) (cntSenders p1 + 1)).
-        exists pm, [t], sl1.
-        assert (Htb1 : totalBytes sl1 = sum_sizes [t]) by (unfold sl1; simpl; lia).
-        split; [|split; [unfold pm; simpl; rewrite (alookup_snoc _ _ _ _ Esl), beqb_refl; reflexivity|split; [reflexivity|split; [exact Htb1|]]]].
-        + apply (Inv_grow p t [t]); [exact HI|exact Eh|exact Hwf| | | | | | |exact Hlook1].
-          * unfold old_items. fold a. rewrite Esl. reflexivity.
-          * repeat constructor.
-          * eapply BH_congr; [| | |exact A1]; reflexivity.
-          * unfold pm; simpl. rewrite map_app. simpl. apply NoDup_app_intro; [exact Hnd|repeat constructor; intros []|].
-            intros x Hx [<-|[]]. apply alookup_None in Esl. contradiction.
-          * unfold pm; simpl. rewrite A3, Hcnt, app_length. simpl. lia.
-          * intros b. unfold pm; simpl. rewrite (alookup_snoc _ _ _ _ Esl). fold a. destruct (beqb a b); [|reflexivity].
-            unfold sl1. simpl. repeat f_equal. lia.
-        + split; [reflexivity|]. split; [reflexivity|]. split; [reflexivity|].
-          change (insert_sorted [] t) with (Some [t]). cbv beta iota.
-          change (totalBytes empty_slist + size t) with (0 + size t). fold sl1.
-          destruct (apply_size_constraints cfg sl1) as (sl2, ev) eqn:Easc. cbn [fst].
-          unfold pm, set_senders. cbn [senders cntSenders byHash cntTx numBytes]. rewrite !(aset_snoc _ _ _ _ Esl).
-          destruct ev; reflexivity. }
-    destruct Hmid as (pm & l' & sl1 & HIm & Hslm & Eit & Etb & M1 & M2 & M3 & Efinal).
-    rewrite Efinal. clear Efinal.
-    unfold apply_size_constraints. destruct (sl_exceeded cfg sl1).
-    + rewrite Eit. destruct (rev l') as [|lastt rfront] eqn:Erev.
-      * cbn [fst]. rewrite (aset_same _ _ _ Hslm), set_senders_id. exact HIm.
-      * apply rev_cons_inv in Erev.
-        set (l2 := rev rfront). cbn [app].
-        pose proof HIm as (HBm & (Hndm & Hokm & Hcntm) & HLm).
-        destruct (Hokm _ _ Hslm) as (_ & Hsm & _ & _). rewrite Eit, Erev in Hsm.
-        assert (Etb2 : totalBytes sl1 - size lastt = sum_sizes l2).
-        { rewrite Etb, Erev, sum_sizes_app. simpl. unfold l2. lia. }
-        set (p4 := remove_sender_if_empty (set_senders pm (aset (senders pm) a {| items := l2; totalBytes := totalBytes sl1 - size lastt |}) (cntSenders pm)) a).
-        assert (Ep4 : p4 = shrink_senders pm a l2 (sum_sizes l2)). { unfold p4, shrink_senders. rewrite Etb2. reflexivity. }
-        destruct (shrink_senders_byHash pm a l2 (sum_sizes l2)) as (S1 & S2 & S3).
-        assert (HB4 : BH p4) by (rewrite Ep4; eapply BH_congr; eauto).
-        destruct (BH_remove_bulk p4 [hash lastt] HB4) as (C1 & C2 & C3 & C4).
-        apply (Inv_shrink pm a sl1 l2 [lastt]); [exact HIm|exact Hslm| | |exact C1| | |].
-        -- rewrite Eit, Erev. reflexivity.
-        -- eapply sorted_app_l. exact Hsm.
-        -- rewrite C2, Ep4. reflexivity.
-        -- rewrite C3, Ep4. reflexivity.
-        -- intros h. rewrite C4, Ep4, S1. reflexivity.
-    + cbn [fst]. rewrite (aset_same _ _ _ Hslm), set_senders_id. exact HIm.
-Qed.
-
-(** ---------- eviction ---------- *)
-
 Definition sub_pool (p q : pool) : Prop := forall x, listed p x -> listed q x.
 
 Lemma sub_pool_refl p : sub_pool p p. Proof. intros x H; exact H. Qed.
@@ -560,6 +452,144 @@ Proof. intros H1 H2 x H. apply H2, H1, H. Qed.
 
 Lemma listed_congr p q x : senders q = senders p -> listed q x <-> listed p x.
 Proof. intros E. unfold listed. rewrite E. reflexivity. Qed.
+
+(** the final step of an insertion: the per-sender size constraints applied to the inserted list *)
+Definition finish_add (cfg : config) (pm : pool) (a : bytes) (sl1 : slist) : pool :=
+  let '(sl2, ev) := apply_size_constraints cfg sl1 in
+  let p3 := set_senders pm (aset (senders pm) a sl2) (cntSenders pm) in
+  let p4 := match ev with [] => p3 | _ => remove_sender_if_empty p3 a end in
+  match ev with [] => p4 | _ => byhash_remove_bulk p4 ev end.
+
+(** insertion of a NEW hash: the pool [pm] right after the sorted insert (before the size
+    constraints) satisfies the invariant; the result is [finish_add] of it *)
+Lemma add_core_new cfg p t : Inv p -> tx_wf t -> alookup (byHash p) (hash t) = None ->
+  exists pm l' sl1,
+    Inv pm /\ alookup (senders pm) (sender t) = Some sl1 /\ items sl1 = l' /\ totalBytes sl1 = sum_sizes l' /\
+    sorted l' /\ Permutation l' (t :: old_items p (sender t)) /\
+    (forall b, alookup (senders pm) b = if beqb (sender t) b then Some sl1 else alookup (senders p) b) /\
+    (forall h, alookup (byHash pm) h = if beqb (hash t) h then Some t else alookup (byHash p) h) /\
+    fst (add_core cfg p t) = finish_add cfg pm (sender t) sl1 /\ snd (add_core cfg p t) = true.
+Proof.
+  intros HI Hwf Eh. pose proof HI as (HB & (Hnd & Hok & Hcnt) & HL). unfold add_core, finish_add.
+  destruct (BH_add p t HB) as (A1 & A2 & A3 & A4 & A5).
+  destruct (byhash_add p t) as (p1, addedH) eqn:Eadd. simpl in A1, A2, A3, A4, A5.
+  rewrite Eh in A4, A5. subst addedH.
+  assert (Hlook1 : forall h, alookup (byHash p1) h = if beqb (hash t) h then Some t else alookup (byHash p) h) by exact A4.
+  set (a := sender t) in *.
+  assert (Hins_ok : forall sl, alookup (senders p) a = Some sl -> exists l', insert_sorted (items sl) t = Some l').
+  { intros sl Hsl. destruct (Hok _ _ Hsl) as (_ & Hsorted & _ & _).
+    pose proof (insert_sorted_spec (items sl) t Hsorted) as Hins.
+    destruct (insert_sorted (items sl) t) as [l'|]; [eauto|]. exfalso.
+    destruct Hins as (c & Hc & _ & _ & Ehc).
+    assert (Hlc : listed p c). { exists sl. destruct (Hok _ _ Hsl) as (_ & _ & Hsnd & _). rewrite (proj1 (Hsnd c Hc)). auto. }
+    apply HL in Hlc. rewrite Ehc in Hlc. congruence. }
+  cbv beta iota. rewrite A2. destruct (alookup (senders p) a) as [sl|] eqn:Esl.
+  - destruct (Hins_ok sl eq_refl) as (l' & El'). unfold sl_add. rewrite El'.
+    destruct (Hok _ _ Esl) as (Hne & Hsorted & Hsnd & Htb).
+    pose proof (insert_sorted_spec (items sl) t Hsorted) as Hins. rewrite El' in Hins. destruct Hins as (Hs' & Hp' & _).
+    set (sl1 := {| items := l'; totalBytes := totalBytes sl + size t |}).
+    set (pm := set_senders p1 (aset (senders p) a sl1) (cntSenders p1)).
+    exists pm, l', sl1.
+    assert (Htb1 : totalBytes sl1 = sum_sizes l').
+    { unfold sl1; simpl. rewrite (sum_sizes_perm _ _ Hp'), Htb. simpl. lia. }
+    assert (Hsl_pm : forall b, alookup (senders pm) b = if beqb a b then Some sl1 else alookup (senders p) b).
+    { intros b. unfold pm; simpl. rewrite alookup_aset. reflexivity. }
+    assert (Hperm : Permutation l' (t :: old_items p a)) by (unfold old_items; rewrite Esl; exact Hp').
+    split; [|split; [rewrite Hsl_pm, beqb_refl; reflexivity|split; [reflexivity|split; [exact Htb1|split; [exact Hs'|split; [exact Hperm|split; [exact Hsl_pm|split; [exact Hlook1|]]]]]]]].
+    + apply (Inv_grow p t l'); [exact HI|exact Eh|exact Hwf|exact Hperm|exact Hs'| | | | |exact Hlook1].
+      * eapply BH_congr; [| | |exact A1]; reflexivity.
+      * unfold pm; simpl. rewrite (aset_keys_present _ _ _ _ Esl). exact Hnd.
+      * unfold pm; simpl. rewrite A3, Hcnt, (aset_length_present _ _ _ _ Esl). reflexivity.
+      * intros b. rewrite Hsl_pm. fold a. destruct (beqb a b); [|reflexivity]. unfold sl1. rewrite <- Htb1. reflexivity.
+    + destruct (apply_size_constraints cfg sl1) as (sl2, ev) eqn:Easc. cbn [fst snd].
+      unfold pm, set_senders. cbn [senders cntSenders byHash cntTx numBytes]. rewrite ?A2, aset_aset.
+      destruct ev; split; reflexivity.
+  - unfold sl_add.
+    set (sl1 := {| items := [t]; totalBytes := 0 + size t |}).
+    set (pm := set_senders p1 (senders p ++ [(a, sl1)]) (cntSenders p1 + 1)).
+    exists pm, [t], sl1.
+    assert (Htb1 : totalBytes sl1 = sum_sizes [t]) by (unfold sl1; simpl; lia).
+    assert (Hsl_pm : forall b, alookup (senders pm) b = if beqb a b then Some sl1 else alookup (senders p) b).
+    { intros b. unfold pm; simpl. rewrite (alookup_snoc _ _ _ _ Esl). reflexivity. }
+    assert (Hperm : Permutation [t] (t :: old_items p a)) by (unfold old_items; rewrite Esl; reflexivity).
+    split; [|split; [rewrite Hsl_pm, beqb_refl; reflexivity|split; [reflexivity|split; [exact Htb1|split; [repeat constructor|split; [exact Hperm|split; [exact Hsl_pm|split; [exact Hlook1|]]]]]]]].
+    + apply (Inv_grow p t [t]); [exact HI|exact Eh|exact Hwf|exact Hperm|repeat constructor| | | | |exact Hlook1].
+      * eapply BH_congr; [| | |exact A1]; reflexivity.
+      * unfold pm; simpl. rewrite map_app. simpl. apply NoDup_app_intro; [exact Hnd|repeat constructor; intros []|].
+        intros x Hx [<-|[]]. apply alookup_None in Esl. contradiction.
+      * unfold pm; simpl. rewrite A3, Hcnt, app_length. simpl. lia.
+      * intros b. rewrite Hsl_pm. fold a. destruct (beqb a b); [|reflexivity]. unfold sl1. simpl. repeat f_equal. lia.
+    + change (insert_sorted (items empty_slist) t) with (Some [t]). cbv beta iota.
+      try change (totalBytes empty_slist + size t) with (0 + size t). fold sl1.
+      destruct (apply_size_constraints cfg sl1) as (sl2, ev) eqn:Easc. cbn [fst snd].
+      unfold pm, set_senders. cbn [senders cntSenders byHash cntTx numBytes]. rewrite !(aset_snoc _ _ _ _ Esl).
+      destruct ev; split; reflexivity.
+Qed.
+
+(** re-insertion of a pooled hash changes nothing and reports added = false *)
+Lemma add_core_dup cfg p t : Inv p -> alookup (byHash p) (hash t) = Some t -> add_core cfg p t = (p, false).
+Proof.
+  intros HI Eh. pose proof HI as (HB & (Hnd & Hok & Hcnt) & HL). unfold add_core.
+  assert (Eadd : byhash_add p t = (p, false)) by (unfold byhash_add; rewrite Eh; reflexivity).
+  rewrite Eadd. assert (Hl : listed p t) by (apply HL; exact Eh). destruct Hl as (sl & Hsl & Hin).
+  rewrite Hsl. unfold sl_add. destruct (Hok _ _ Hsl) as (_ & Hsorted & _ & _).
+  pose proof (insert_sorted_spec (items sl) t Hsorted) as Hins.
+  destruct (insert_sorted (items sl) t) as [l'|].
+  - exfalso. destruct Hins as (_ & _ & Hno). apply (Hno t Hin). repeat split; reflexivity.
+  - cbn [fst]. rewrite (aset_same _ _ _ Hsl), set_senders_id. reflexivity.
+Qed.
+
+(** what [finish_add] does: at most one drop from the back (finding F4), index kept in step *)
+Lemma finish_add_spec cfg pm a sl1 : Inv pm -> alookup (senders pm) a = Some sl1 -> totalBytes sl1 = sum_sizes (items sl1) ->
+  let l' := items sl1 in
+  let l2 := if sl_exceeded cfg sl1 then removelast l' else l' in
+  Inv (finish_add cfg pm a sl1) /\
+  (forall b, pool_for_sender (finish_add cfg pm a sl1) b = if beqb a b then l2 else pool_for_sender pm b) /\
+  sub_pool (finish_add cfg pm a sl1) pm.
+Proof.
+  intros HIm Hslm Etb. cbv zeta. unfold finish_add, apply_size_constraints.
+  pose proof HIm as (HBm & (Hndm & Hokm & Hcntm) & HLm).
+  destruct (sl_exceeded cfg sl1).
+  - destruct (rev (items sl1)) as [|lastt rfront] eqn:Erev.
+    + assert (El : items sl1 = []) by (rewrite <- (rev_involutive (items sl1)), Erev; reflexivity).
+      rewrite (aset_same _ _ _ Hslm), set_senders_id. split; [exact HIm|]. split; [|apply sub_pool_refl].
+      intros b. unfold pool_for_sender. destruct (beqb_spec a b) as [<-|]; [rewrite Hslm, El; reflexivity|reflexivity].
+    + apply rev_cons_inv in Erev. set (l2 := rev rfront).
+      assert (Erl : removelast (items sl1) = l2) by (rewrite Erev; apply removelast_last).
+      destruct (Hokm _ _ Hslm) as (_ & Hsm & _ & _). rewrite Erev in Hsm.
+      assert (Etb2 : totalBytes sl1 - size lastt = sum_sizes l2).
+      { rewrite Etb, Erev, sum_sizes_app. simpl. unfold l2. lia. }
+      set (p4 := remove_sender_if_empty (set_senders pm (aset (senders pm) a {| items := l2; totalBytes := totalBytes sl1 - size lastt |}) (cntSenders pm)) a).
+      assert (Ep4 : p4 = shrink_senders pm a l2 (sum_sizes l2)). { unfold p4, shrink_senders. rewrite Etb2. reflexivity. }
+      destruct (shrink_senders_byHash pm a l2 (sum_sizes l2)) as (S1 & S2 & S3).
+      assert (HB4 : BH p4) by (rewrite Ep4; eapply BH_congr; eauto).
+      destruct (BH_remove_bulk p4 [hash lastt] HB4) as (C1 & C2 & C3 & C4).
+      cbn [app]. fold l2. fold p4. split; [|split].
+      * apply (Inv_shrink pm a sl1 l2 [lastt]); [exact HIm|exact Hslm| | |exact C1| | |].
+        -- rewrite Erev. reflexivity.
+        -- eapply sorted_app_l. exact Hsm.
+        -- rewrite C2, Ep4. reflexivity.
+        -- rewrite C3, Ep4. reflexivity.
+        -- intros h. rewrite C4, Ep4, S1. reflexivity.
+      * intros b. unfold pool_for_sender. rewrite C2, Ep4, (shrink_senders_lookup _ _ _ _ _ _ Hndm Hslm), Erl.
+        destruct (beqb a b); [destruct l2; reflexivity|reflexivity].
+      * intros x Hx. apply (listed_congr _ _ x C2) in Hx. rewrite Ep4 in Hx.
+        apply (listed_shrink _ _ _ _ _ _ Hndm Hslm) in Hx. destruct Hx as [(Ex & Hin)|(_ & H)]; [|exact H].
+        exists sl1. rewrite Ex. split; [exact Hslm|]. rewrite Erev. apply in_or_app. left. exact Hin.
+  - rewrite (aset_same _ _ _ Hslm), set_senders_id. split; [exact HIm|]. split; [|apply sub_pool_refl].
+    intros b. unfold pool_for_sender. destruct (beqb_spec a b) as [<-|]; [rewrite Hslm; reflexivity|reflexivity].
+Qed.
+
+(** the insertion proper preserves the invariant *)
+Lemma Inv_add_core cfg p t : Inv p -> agrees p t -> tx_wf t -> Inv (fst (add_core cfg p t)).
+Proof.
+  intros HI Hag Hwf. destruct (alookup (byHash p) (hash t)) as [t'|] eqn:Eh.
+  - assert (t' = t) by (apply Hag; exact Eh). subst t'. rewrite (add_core_dup cfg p t HI Eh). exact HI.
+  - destruct (add_core_new cfg p t HI Hwf Eh) as (pm & l' & sl1 & HIm & Hslm & Eit & Etb & _ & _ & _ & _ & Efin & _).
+    rewrite Efin. apply finish_add_spec; [exact HIm|exact Hslm|rewrite Eit; exact Etb].
+Qed.
+
+(** ---------- eviction ---------- *)
 
 Lemma Inv_lookup_ext p q : Inv p -> BH q -> senders q = senders p -> cntSenders q = cntSenders p ->
   (forall h, alookup (byHash q) h = alookup (byHash p) h) -> Inv q.
